@@ -5,6 +5,7 @@ import (
 	"os"
 	"path/filepath"
 	"strings"
+	"unicode/utf8"
 
 	"github.com/Vedant9500/WTF/internal/config"
 	"github.com/Vedant9500/WTF/internal/database"
@@ -116,8 +117,55 @@ func saveToPersonalDatabase(dbPath string, entry database.Command) error {
 	return writePersonalDatabase(dbPath, commands)
 }
 
+// notebookString is a string that is written double-quoted when it contains line
+// breaks: the encoder's block-literal output for such strings (for example "\n",
+// " x\n" or "\nb") does not read back as the same string, or not at all.
+type notebookString string
+
+// MarshalYAML implements yaml.Marshaler.
+func (s notebookString) MarshalYAML() (interface{}, error) {
+	if strings.ContainsAny(string(s), "\n\r") && utf8.ValidString(string(s)) {
+		return &yaml.Node{Kind: yaml.ScalarNode, Tag: "!!str", Value: string(s), Style: yaml.DoubleQuotedStyle}, nil
+	}
+	return string(s), nil
+}
+
+// notebookEntry mirrors the YAML fields of database.Command for writing.
+type notebookEntry struct {
+	Command     notebookString   `yaml:"command"`
+	Description notebookString   `yaml:"description"`
+	Keywords    []notebookString `yaml:"keywords"`
+	Tags        []notebookString `yaml:"tags,omitempty"`
+	Niche       notebookString   `yaml:"niche,omitempty"`
+	Platform    []notebookString `yaml:"platform,omitempty"`
+	Pipeline    bool             `yaml:"pipeline"`
+}
+
+func toNotebookStrings(in []string) []notebookString {
+	if in == nil {
+		return nil
+	}
+	out := make([]notebookString, len(in))
+	for i, s := range in {
+		out[i] = notebookString(s)
+	}
+	return out
+}
+
 func writePersonalDatabase(dbPath string, commands []database.Command) error {
-	data, err := yaml.Marshal(commands)
+	entries := make([]notebookEntry, len(commands))
+	for i, c := range commands {
+		entries[i] = notebookEntry{
+			Command:     notebookString(c.Command),
+			Description: notebookString(c.Description),
+			Keywords:    toNotebookStrings(c.Keywords),
+			Tags:        toNotebookStrings(c.Tags),
+			Niche:       notebookString(c.Niche),
+			Platform:    toNotebookStrings(c.Platform),
+			Pipeline:    c.Pipeline,
+		}
+	}
+	data, err := yaml.Marshal(entries)
 	if err != nil {
 		return fmt.Errorf("failed to marshal commands: %w", err)
 	}
